@@ -96,6 +96,7 @@ func ExploreIsolated[C any](r *Run, scope string, mode Mode, caseTimeout time.Du
 	var wg sync.WaitGroup
 	var mu sync.Mutex
 	complete := true
+	var merged int64
 	for i := 0; i < n; i++ {
 		wg.Add(1)
 		go func(i int) {
@@ -145,11 +146,24 @@ func ExploreIsolated[C any](r *Run, scope string, mode Mode, caseTimeout time.Du
 							x.sample = wr.Sample
 						}
 						r.merge(x, scope, leafInfo{seq: wr.Seq, vector: wr.Vector}, scopeOut, scopeNT)
+						mu.Lock()
+						merged++
+						mu.Unlock()
 					}
 				}
 				err := cmd.Wait()
 				os.RemoveAll(fmt.Sprintf("/dev/shm/verif.%d", cmd.Process.Pid)) // scratch of a worker that died
 				if done {
+					return
+				}
+				if err == nil && cur == nil && !r.Deadline.IsZero() && time.Until(r.Deadline) < 5*time.Second {
+					// clean exit without the completion record: the worker stopped at the (shared) deadline
+					r.mu.Lock()
+					r.deadlineHit = true
+					r.mu.Unlock()
+					mu.Lock()
+					complete = false
+					mu.Unlock()
 					return
 				}
 				if r.Expired() {
@@ -177,6 +191,9 @@ func ExploreIsolated[C any](r *Run, scope string, mode Mode, caseTimeout time.Du
 		}(i)
 	}
 	wg.Wait()
+	if st.Leaves == 0 {
+		st.Leaves = merged // no completion record (deadline): report the executions that were merged
+	}
 	st.Complete = complete
 	st.Outcomes, st.Nontrivial = len(scopeOut), len(scopeNT)
 	st.WallS = time.Since(t0).Seconds()
